@@ -1515,6 +1515,9 @@ def _compute_permutation_c(
 
     """
     permutation = np.zeros(shape=(len(positions_a),), dtype="intc")
+    # The C function reads the raw buffer. A transposed view (e.g., cell.T)
+    # has to be made C-contiguous.
+    lattice = np.array(lattice, dtype="double", order="C")
 
     def permutation_error():
         raise ValueError(
